@@ -901,6 +901,11 @@ func parseShapes(csv *csv.File) []Shape {
 			continue
 		}
 
+		if shapePtLat == nil || shapePtLon == nil || shapePtSequence == nil {
+			log.Printf("Skipping shape point because of unparsable coordinates or sequence")
+			continue
+		}
+
 		shapeIDToRowData[shapeID] = append(shapeIDToRowData[shapeID], ShapeRow{
 			ShapePtLat:        *shapePtLat,
 			ShapePtLon:        *shapePtLon,
